@@ -483,6 +483,8 @@ class GraphModels:
             return NotImplemented
         seq = ex.to_iter(src, lineno)
         if seq.concrete is not None:
+            if not seq.concrete:
+                return ex.coerce(ex.models.make_list(ex, []), TList(kt))  # a typed empty list
             return NotImplemented
         mem = ex.models._iter_member(ex, src, kt)
         res = TList(kt).fresh(st, "sorted")
@@ -492,7 +494,7 @@ class GraphModels:
         st.assume(ro.n == seq.n)
         st.assume(z3.ForAll([i], z3.Implies(z3.And(0 <= i, i < ro.n), mem[ro.elems[i]]), patterns=[ro.elems[i]]))
         spos = st.fresh_const("sortpos", z3.ArraySort(I, I))
-        st.assume(z3.ForAll([k], z3.Implies(mem[k], z3.And(0 <= spos[k], spos[k] < ro.n, ro.elems[spos[k]] == k)), patterns=[spos[k]]))
+        st.assume(z3.ForAll([k], z3.Implies(mem[k], z3.And(0 <= spos[k], spos[k] < ro.n, ro.elems[spos[k]] == k)), patterns=[spos[k]] + ([mem[k]] if _pat_ok(mem[k]) else [])))
         srco = st.heap[src.id] if isinstance(src, Ref) else (st.heap[src.ref.id] if isinstance(src, DictView) and src.kind == "keys" else None)
         if isinstance(srco, (SetObj, DictObj)):
             # distinct elements: strictly increasing
@@ -556,7 +558,8 @@ class GraphModels:
         for f in reach_axioms(E):
             st.assume(f)
         # partition: every node in exactly one class (cls_of), classes contain only nodes
-        st.assume(z3.ForAll([u], z3.Implies(nodes.member[u], z3.And(0 <= cls_of[u], cls_of[u] < ro.n)), patterns=[cls_of[u]]))
+        st.assume(z3.ForAll([u], z3.Implies(nodes.member[u], z3.And(0 <= cls_of[u], cls_of[u] < ro.n, mem(cls_of[u])[u])), patterns=[cls_of[u]] + ([nodes.member[u]] if _pat_ok(nodes.member[u]) else [])))
+        st.assume(z3.ForAll([i], z3.Implies(z3.And(0 <= i, i < ro.n), SS.dt.accessor(0, 1)(ro.elems[i]) >= 1), patterns=[ro.elems[i]]))
         st.assume(z3.ForAll([i, u], z3.Implies(z3.And(0 <= i, i < ro.n), mem(i)[u] == z3.And(nodes.member[u], cls_of[u] == i)), patterns=[mem(i)[u]]))
         # classes are the classes of mutual reachability
         st.assume(z3.ForAll([u, v], z3.Implies(z3.And(nodes.member[u], nodes.member[v]), (cls_of[u] == cls_of[v]) == z3.And(reach(E, u, v), reach(E, v, u))),
